@@ -171,7 +171,24 @@ def _run_wave(ctx, handler_path, tasks, groups, wave, alloc, results, timeout,
                 elif kind == "fatal":
                     raise HarnessError("worker failed to start:\n" + msg[2])
                 elif kind == "exit":
-                    pass
+                    # a worker ran out of tasks for its seed group: give its
+                    # slot to the group with the most work left per worker
+                    wid = msg[1]
+                    if wid in workers:
+                        del workers[wid]
+                    alive = {}
+                    for pr, sd in workers.values():
+                        alive[sd] = alive.get(sd, 0) + 1
+                    best, ratio = None, 1.0
+                    for sd in wave:
+                        a = alive.get(sd, 0)
+                        if remaining[sd] > a:
+                            r = remaining[sd] / max(a, 0.5)
+                            if r > ratio:
+                                best, ratio = sd, r
+                    if best is not None:
+                        taskqs[best].put(None)
+                        spawn(best)
             # liveness
             for wid, (p, seed) in list(workers.items()):
                 if wid in inflight:
